@@ -16,6 +16,12 @@ FINISH = dict(level="proof", technique_note=(
     "exact Fraction policy enumeration / Bellman-equation certificate. non-trivial = instance with >= 2 states and some "
     "state with >= 2 feasible actions"))
 
+IMPORTS_LP = ("From Coq Require Import Arith.\nFrom QE Require Import Gen.Consts Base.Pivot C04.Model C09.Solve C09.Model "
+              "C01.Model C01.ModelLP.")
+PREAMBLE_LP = r"""
+Definition with_ok {A} (c : cres (ddp A)) (f : ddp A -> bool) : bool := match c with COk d => f d | _ => false end.
+Definition optsF : @PivOptions float := {| fea_tol := lp_FEA_TOL_f; tol_piv := lp_TOL_PIV_f; tol_ratio_diff := lp_TOL_RATIO_DIFF_f |}.
+"""
 PREAMBLE = c09.PREAMBLE + "Definition TOLF : float := %s.\n" % fl(1e-9) + r"""
 Definition f2q (x : float) : Q :=
   match Prim2SF x with
@@ -120,6 +126,7 @@ def run(ctx):
     vi_cases, vi_meta = [], []
     viq_cases, viq_meta = [], []
     mpi_cases, mpi_meta = [], []
+    lp_cases, lp_meta = [], []
 
     for ii, inst in enumerate(insts):
         vstar = oracle_opt(inst)
@@ -186,8 +193,16 @@ def run(ctx):
                 # ---------------- linear programming (oracle + agreement with pi; no Coq model)
                 if "sparse" not in kind:
                     vinit = rng.choice([None, dyadic_v(rng, inst.n)])
-                    res = ddp.solve(method="lp", v_init=None if vinit is None else np.array([float(x) for x in vinit]))
-                    inp = dict(inp0, method="lp", v_init=vinit)
+                    mi = rng.choice([None, None, None, inst.n, inst.n + 1, inst.n + 2])
+                    res = ddp.solve(method="lp", v_init=None if vinit is None else np.array([float(x) for x in vinit]), max_iter=mi)
+                    cap = ddp.max_iter * inst.n if mi is None else mi
+                    inp = dict(inp0, method="lp", v_init=vinit, max_iter=cap)
+                    lp_cases.append(tup(fterm, fopt(vinit), natlit(cap), flist([float(x) for x in res.v]),
+                                        natlist([int(x) for x in res.sigma]), natlit(res.num_iter)))
+                    lp_meta.append(dict(inp, impl={"v": res.v, "sigma": res.sigma, "num_iter": res.num_iter}))
+                    if mi is not None:
+                        ctx.count("lp:small max_iter=n+%d (num_iter %s cap)" % (mi - inst.n, "<" if res.num_iter < cap else ">="))
+                        res = ddp.solve(method="lp", v_init=None if vinit is None else np.array([float(x) for x in vinit]))
                     ctx.count("lp:solved")
                     check_opt("lp", res, inp)
                     values_seen["lp:" + kind] = [float(x) for x in res.v]
@@ -295,6 +310,15 @@ def run(ctx):
               "Qs_close %s (fs2q (iter_k (bellman_operator d) k v0)) v && near_greedy %s dq v sg && "
               "borderline (vi_tol eps (d_beta d)) (vi_err d v0 (Nat.min k (vi_num_iter r)))))" % (TOLQ, TOLQ))
     two_phase("value_iteration", vi_t, vi_strict, vi_len, vi_cases, vi_meta, "C01.Model.value_iteration (PrimFloat) vs DiscreteDP.solve('vi')", 40)
+
+    # lp: PrimFloat instance of C01/ModelLP.v (Base/Pivot + C04 solve_tableau); the Numba kernels are bit-identical to
+    # the same operations in source order, so v, sigma and num_iter are compared exactly
+    lp_t = DF + " * option (list float) * nat * list float * list nat * nat"
+    lp_ok = ("fun c => let '(cf, vi, cap, v, sg, k) := c in with_ok cf (fun d => match linprog_simplex_ddp d vi cap optsF with "
+             "| Some (su, mk, mv, msg) => Nat.eqb mk k && Fs_eqb mv v && nats_eqb msg sg | None => false end)")
+    bad = ctx.coq_check("linprog_simplex", IMPORTS_LP, lp_t, lp_ok, lp_cases, chunk=60, preamble=PREAMBLE_LP)
+    for i in bad:
+        ctx.mismatch("C01.ModelLP.linprog_simplex_ddp (PrimFloat, bit-exact) vs DiscreteDP.solve('lp')", lp_meta[i], lp_meta[i].get("impl"))
 
     viq_t = DQ + " * option (list Q) * Q * nat * list Q * list nat * nat"
     viq_strict = ("fun c => let '(cq, vi, eps, cap, v, sg, k) := c in with_ok cq (fun d => "
